@@ -490,6 +490,7 @@ func utf8Boundary() [][]byte {
 		{0xee, 0x80, 0x80}, {0xef, 0xbf, 0xbf}, {0xef, 0xbf}, {0xe4, 0xb8, 0xad}, {0xe4, 0xb8}, {0xe4},
 		{0xf0, 0x90, 0x80, 0x80}, {0xf0, 0x8f, 0xbf, 0xbf}, {0xf0, 0x90, 0x80}, {0xf1, 0x80, 0x80, 0x80}, {0xf3, 0xbf, 0xbf, 0xbf}, {0xf4, 0x8f, 0xbf, 0xbf},
 		{0xf4, 0x90, 0x80, 0x80}, {0xf5, 0x80, 0x80, 0x80}, {0xf8, 0x88, 0x80, 0x80, 0x80}, {0xff}, {0xfe}, {0xf0, 0x9f, 0x98, 0x80},
+		{0xef, 0xbf, 0xbd}, {0xef, 0xbb, 0xbf}, {0xef, 0xbf, 0xbe}, {0xed, 0x9f, 0xbf, 0xee, 0x80, 0x80}, []byte("x\xef\xbf\xbdy"), []byte("\xef\xbf\xbd\xef\xbf\xbd"),
 		[]byte("a\xe4\xb8\xadb"), []byte("ab\xc2"), []byte("\xf0\x9f\x98\x80\xf0\x9f\x98"), []byte("ok \xed\xa0\x80 surrogate"),
 	}
 }
